@@ -257,6 +257,16 @@ func (s *Inst) Apply(o Op, check bool) *mc.Failure {
 			return f
 		}
 	}
+	// Probe 3 (prepared here, used after the operation): a second clone taken
+	// before the operation gets *different* mutations afterwards - storage the
+	// two trees still share (a recycled node, a scratch buffer) is written
+	// with different contents by the two and shows in one of them.
+	var clone2 *stree.Tree[Elem]
+	var ref2 []Elem
+	if check && s.Mode.Set {
+		clone2 = s.T.Clone()
+		ref2 = append([]Elem(nil), s.Ref...)
+	}
 	nonEmptyBefore := len(s.Ref) > 0
 	twoChild := false
 	if check && o.K == "remove" && s.Stats != nil {
@@ -292,6 +302,24 @@ func (s *Inst) Apply(o Op, check bool) *mc.Failure {
 		}
 		if o.K == "remove" && want && hiddenMax(s.T) >= 0 && hiddenMax(s.T) < m0 {
 			s.Stats.DeleteRebuilds++
+		}
+	}
+	if s.Mode.Set && clone2 != nil {
+		after, _ := Shape(s.T)
+		// an insertion of a key outside the domain and a removal on the early clone
+		alt := &Inst{Keys: s.Keys, Ref: ref2}
+		alts := []Op{{K: "add", A: -2, T: 1}, {K: "remove", A: o.A}}
+		for _, a := range alts {
+			gota := applyTree(clone2, a)
+			if wanta := alt.applyRef(a); gota != wanta {
+				return mc.Failf(0, "%v on a Clone taken before %v returned %v, want %v", a, o, gota, wanta)
+			}
+		}
+		if sh, _ := Shape(s.T); sh != after {
+			return mc.Failf(0, "after %v, %v applied to a Clone taken before it changed the original: %s -> %s", o, alts, after, sh)
+		}
+		if f := contents(clone2, alt.Ref, fmt.Sprintf("clone taken before %v, after its own mutations", o)); f != nil {
+			return f
 		}
 	}
 	if s.Mode.Set {
